@@ -223,6 +223,60 @@ def ceil_div_witness(ctx, a, b):
     return z3.If(r != 0, q + 1, q)
 
 
+def array_dtype(items):
+    """numpy's result type for a one-dimensional array of these (possibly symbolic) scalars"""
+    kinds = set()
+    for x in items:
+        if isinstance(x, Sym):
+            kinds.add({"int": "int", "real": "float", "bool": "bool", "str": "str"}[x.k])
+        elif isinstance(x, bool):
+            kinds.add("bool")
+        elif isinstance(x, int):
+            kinds.add("int")
+        elif isinstance(x, float):
+            kinds.add("float")
+        elif isinstance(x, str):
+            kinds.add("str")
+        else:
+            kinds.add("object")
+    if not kinds:
+        return "float"
+    if kinds <= {"bool"}:
+        return "bool"
+    if kinds <= {"bool", "int"}:
+        return "int"
+    if kinds <= {"bool", "int", "float"}:
+        return "float"
+    return "str" if kinds <= {"str"} else "object"
+
+
+def cast_elem(ctx, x, dtype):
+    """numpy's cast of one element to the array's dtype (float -> int truncates toward zero)"""
+    if dtype == "float":
+        if isinstance(x, Sym):
+            return x if x.k == "real" else mk(term(x, "real"), "real")
+        return float(x) if isinstance(x, (int, float, bool)) else x
+    if dtype == "int":
+        if isinstance(x, Sym):
+            if x.k == "real":
+                return mk(py_trunc(x.t), "int")
+            return x if x.k == "int" else mk(term(x, "int"), "int")
+        return int(x) if isinstance(x, (int, float, bool)) else x
+    return x
+
+
+def make_array(ctx, items, dtype=None):
+    items = list(items)
+    dt = dtype or array_dtype(items)
+    if dt in ("float", "int"):
+        items = [cast_elem(ctx, x, dt) for x in items]
+    r = ctx.new_list(items)
+    c = ctx.cell(r)
+    c.is_array = True
+    c.dtype = dt
+    return r
+
+
 def _array_cell(ctx, v):
     if isinstance(v, Ref):
         c = ctx.cell(v)
@@ -242,11 +296,13 @@ def array_binop(ctx, op, a, b, inplace):
     ys = list(cb.items) if cb is not None else [b] * n
     res = [binop(ctx, op, x, y) for x, y in zip(xs, ys)]
     if inplace and ca is not None:
-        ctx.wcell(a, "[]").items[:] = res
+        dt = getattr(ca, "dtype", "float")
+        if dt == "int" and array_dtype(res) == "float":
+            # numpy refuses to write a float result into an integer array (same-kind casting rule)
+            ctx.raise_exc("TypeError", ("Cannot cast ufunc output from dtype('float64') to dtype('int64') with casting rule 'same_kind'",))
+        ctx.wcell(a, "[]").items[:] = [cast_elem(ctx, x, dt) for x in res] if dt in ("int", "float") else res
         return a
-    r = ctx.new_list(res)
-    ctx.cell(r).is_array = True
-    return r
+    return make_array(ctx, res)
 
 
 def binop(ctx, op, a, b, inplace=False):
@@ -259,8 +315,7 @@ def binop(ctx, op, a, b, inplace=False):
             if isinstance(other, Ref) and _array_cell(ctx, other) is None and isinstance(ctx.cell(other), HList):
                 other_items = ctx.cell(other).items   # list operand: numpy converts it
                 if other_items is not None:
-                    tmp = ctx.new_list(list(other_items))
-                    ctx.cell(tmp).is_array = True
+                    tmp = make_array(ctx, list(other_items))
                     a, b = (a, tmp) if other is b else (tmp, b)
             return array_binop(ctx, op, a, b, inplace)
     for x, other, refl in ((a, b, False), (b, a, True)):
